@@ -220,3 +220,227 @@ func regexMinLen(r *syntax.Regexp) int {
 	}
 	return 0
 }
+
+// nonNilGlobalExpr: e is `&T{...}` or names a package-level pointer variable initialised so.
+func (ex *Exec) nonNilGlobalExpr(e ast.Expr) bool {
+	switch x := unparen(e).(type) {
+	case *ast.UnaryExpr:
+		if _, ok := unparen(x.X).(*ast.CompositeLit); ok && x.Op.String() == "&" {
+			return true
+		}
+	case *ast.Ident:
+		v, ok := ex.P.Info.Uses[x].(*types.Var)
+		if !ok || v.Pkg() == nil || v.Parent() != v.Pkg().Scope() {
+			return false
+		}
+		if init := ex.globalInit(v); init != nil {
+			if u, ok := unparen(init).(*ast.UnaryExpr); ok && u.Op.String() == "&" {
+				_, isLit := unparen(u.X).(*ast.CompositeLit)
+				return isLit
+			}
+			// alias of another such variable (initialisation order follows the dependency)
+			if id2, ok := unparen(init).(*ast.Ident); ok && id2.Name != x.Name {
+				ex.aliasDepth++
+				defer func() { ex.aliasDepth-- }()
+				return ex.aliasDepth < 8 && ex.nonNilGlobalExpr(id2)
+			}
+		}
+	}
+	return false
+}
+
+// mapTypeExclusive: no statement of the package creates or writes a map whose heap arrays are
+// those of mt, apart from the composite literal `within` (checked syntactically on every run).
+func (ex *Exec) mapTypeExclusive(mt types.Type, within ast.Node) bool {
+	base := mapHeapBase(mt)
+	same := func(t types.Type) bool {
+		if t == nil {
+			return false
+		}
+		if _, ok := t.Underlying().(*types.Map); !ok {
+			return false
+		}
+		return mapHeapBase(t) == base
+	}
+	ok := true
+	for _, f := range ex.P.Pkg.Syntax {
+		ast.Inspect(f, func(n ast.Node) bool {
+			if n == nil {
+				return false
+			}
+			if n == within {
+				return false
+			}
+			switch x := n.(type) {
+			case *ast.CompositeLit:
+				if tv, k := ex.P.Info.Types[x]; k && same(tv.Type) {
+					ok = false
+				}
+			case *ast.CallExpr:
+				if id, k := unparen(x.Fun).(*ast.Ident); k && (id.Name == "make" || id.Name == "delete") && len(x.Args) > 0 {
+					if _, isB := ex.P.Info.Uses[id].(*types.Builtin); isB {
+						if tv, k := ex.P.Info.Types[x.Args[0]]; k && same(tv.Type) {
+							ok = false
+						}
+					}
+				}
+			case *ast.AssignStmt:
+				for _, l := range x.Lhs {
+					if ix, k := unparen(l).(*ast.IndexExpr); k {
+						if tv, k := ex.P.Info.Types[ix.X]; k && same(tv.Type) {
+							ok = false
+						}
+					}
+				}
+			case *ast.IncDecStmt:
+				if ix, k := unparen(x.X).(*ast.IndexExpr); k {
+					if tv, k := ex.P.Info.Types[ix.X]; k && same(tv.Type) {
+						ok = false
+					}
+				}
+			}
+			return true
+		})
+	}
+	return ok
+}
+
+// tableLeafFacts: a package-level map (possibly of maps) of struct literals whose innermost map
+// type is used by nothing else in the package: every present entry has the pointer fields that
+// all literal entries set to the address of a package-level literal non-nil. The fact is about
+// the heap arrays at function entry (nothing in the package writes them).
+func (ex *Exec) tableLeafFacts(o *types.Var) []*Term {
+	init := ex.globalInit(o)
+	cl, ok := unparen(init).(*ast.CompositeLit)
+	if !ok {
+		return nil
+	}
+	var leaves []*ast.CompositeLit
+	var inner types.Type
+	bad := false
+	var walk func(c *ast.CompositeLit)
+	walk = func(c *ast.CompositeLit) {
+		tv, ok := ex.P.Info.Types[c]
+		if !ok {
+			bad = true
+			return
+		}
+		switch u := tv.Type.Underlying().(type) {
+		case *types.Map:
+			if _, isStruct := u.Elem().Underlying().(*types.Struct); isStruct {
+				if inner != nil && !types.Identical(inner, tv.Type) {
+					bad = true
+				}
+				inner = tv.Type
+			}
+			for _, el := range c.Elts {
+				kv, ok := el.(*ast.KeyValueExpr)
+				if !ok {
+					bad = true
+					return
+				}
+				sub, ok := unparen(kv.Value).(*ast.CompositeLit)
+				if !ok {
+					bad = true
+					return
+				}
+				walk(sub)
+			}
+		case *types.Struct:
+			leaves = append(leaves, c)
+		default:
+			bad = true
+		}
+	}
+	walk(cl)
+	if bad || inner == nil || len(leaves) == 0 {
+		return nil
+	}
+	if !ex.mapTypeExclusive(inner, cl) {
+		return nil
+	}
+	st := inner.Underlying().(*types.Map).Elem().Underlying().(*types.Struct)
+	var out []*Term
+	mv := Val{T: inner, C: []*Term{IntLit(0)}}
+	tmp := &State{vars: map[types.Object]Val{}, heap: map[string]*Term{}, ghost: map[string]Val{}}
+	_, dom := tmp.mapDom(mv)
+	for i := 0; i < st.NumFields(); i++ {
+		f := st.Field(i)
+		if _, isPtr := f.Type().Underlying().(*types.Pointer); !isPtr {
+			continue
+		}
+		all := true
+		for _, leaf := range leaves {
+			found := false
+			for _, el := range leaf.Elts {
+				kv, ok := el.(*ast.KeyValueExpr)
+				if !ok {
+					continue
+				}
+				if id, ok := kv.Key.(*ast.Ident); ok && id.Name == f.Name() && ex.nonNilGlobalExpr(kv.Value) {
+					found = true
+				}
+			}
+			if !found {
+				all = false
+				break
+			}
+		}
+		if !all {
+			continue
+		}
+		for _, c := range flatten(inner.Underlying().(*types.Map).Elem()) {
+			if c.Path != "."+f.Name() {
+				continue
+			}
+			_, h := tmp.mapValHeap(mv, c)
+			m := BVar("tm", SInt)
+			k := BVar("tk", mapKeySort(inner))
+			val := Select(Select(h, m), k)
+			q := Forall([]*Term{m, k}, Implies(Select(Select(dom, m), k), Neq(val, IntLit(0))), []*Term{val})
+			out = append(out, q)
+			ex.assumedExt["table fact: every entry of "+o.Name()+" has a non-nil ."+f.Name()+" (read off its initialiser; no other statement of the package creates or writes a map of that type)"] = true
+		}
+	}
+	return out
+}
+
+// arrayConstFacts: a package-level array of integer constants has exactly the listed elements.
+func (ex *Exec) arrayConstFacts(o *types.Var, v Val) []*Term {
+	at, ok := o.Type().Underlying().(*types.Array)
+	if !ok || !isInteger(at.Elem()) || at.Len() > 128 || len(v.C) != 1 {
+		return nil
+	}
+	cl, ok := unparen(ex.globalInit(o)).(*ast.CompositeLit)
+	if !ok || int64(len(cl.Elts)) != at.Len() {
+		return nil
+	}
+	var out []*Term
+	var lo, hi int64
+	for i, el := range cl.Elts {
+		if _, keyed := el.(*ast.KeyValueExpr); keyed {
+			return nil
+		}
+		tv, ok := ex.P.Info.Types[el]
+		if !ok || tv.Value == nil || tv.Value.Kind() != constant.Int {
+			return nil
+		}
+		n, ok := constant.Int64Val(tv.Value)
+		if !ok {
+			return nil
+		}
+		out = append(out, Eq(Select(v.C[0], IntLit(int64(i))), IntLit(n)))
+		if i == 0 || n < lo {
+			lo = n
+		}
+		if i == 0 || n > hi {
+			hi = n
+		}
+	}
+	if len(cl.Elts) > 0 {
+		q := BVar("ti", SInt)
+		el := Select(v.C[0], q)
+		out = append(out, Forall([]*Term{q}, Implies(And(Le(IntLit(0), q), Lt(q, IntLit(at.Len()))), And(Le(IntLit(lo), el), Le(el, IntLit(hi)))), []*Term{el}))
+	}
+	return out
+}
